@@ -1,6 +1,7 @@
 package main
 
 import (
+	"github.com/bits-and-blooms/bloom/v3"
 	"bytes"
 	"context"
 	"encoding/binary"
@@ -47,7 +48,89 @@ type c19base struct {
 	meta   refmodel.MetaJSON
 }
 
+// c19BigBase: a file built from FILE_FORMAT.md whose middle block carries a filter section
+// larger than the reader's 4 MiB chunk target (a token filter sized for 4.2 M entries), so
+// that framing fields can point into, across and past a section that is read on its own.
+func c19BigBase() (*c19base, error) {
+	groups := [][]map[string]any{
+		{{"id": 1, "p": "a", "msg": "alpha one"}, {"id": 2, "p": "a", "msg": "beta two"}, {"id": 3, "p": "a", "msg": "gamma"}},
+		{{"id": 4, "p": "b", "msg": "alpha four"}, {"id": 5, "p": "b", "msg": "delta"}, {"id": 6, "p": "b", "msg": "omega six"}},
+		{{"id": 7, "p": "c", "msg": "alpha seven"}, {"id": 8, "p": "c", "msg": "dalet"}},
+	}
+	b := &c19base{rows: map[string]int{}}
+	var file bytes.Buffer
+	var blocks []bs.DataBlockMetadata
+	var sections [][]byte
+	fileF, fileT, fileFT := map[string]bool{}, map[string]bool{}, map[string]bool{}
+	for gi, g := range groups {
+		var rd bytes.Buffer
+		bf, bt, bft := map[string]bool{}, map[string]bool{}, map[string]bool{}
+		for _, r := range g {
+			raw, _ := json.Marshal(r)
+			info, err := refmodel.Analyze(raw)
+			if err != nil {
+				return nil, err
+			}
+			b.rows[info.Canon]++
+			f, t, ft := info.Entries(refmodel.DefaultTokenizer)
+			for k := range f {
+				bf[k], fileF[k] = true, true
+			}
+			for k := range t {
+				bt[k], fileT[k] = true, true
+			}
+			for k := range ft {
+				bft[k], fileFT[k] = true, true
+			}
+			var l [4]byte
+			binary.LittleEndian.PutUint32(l[:], uint32(len(raw)))
+			rd.Write(l[:])
+			rd.Write(raw)
+		}
+		blocks = append(blocks, bs.DataBlockMetadata{
+			RowDataOffset: file.Len(), RowDataSize: rd.Len(), Rows: len(g), UncompressedSize: rd.Len(), PartitionID: fmt.Sprint(g[0]["p"]),
+			Compression: bs.CompressionNone, BloomFalsePositiveRate: 0.01,
+			RowDataHash: crc32.Checksum(rd.Bytes(), crc32.MakeTable(crc32.Castagnoli)), HasRowDataHash: true,
+		})
+		file.Write(rd.Bytes())
+		tokens := sizedFilter(bt, 0.01)
+		if gi == 1 {
+			tokens = bloom.NewWithEstimates(4_200_000, 0.01) // ~5 MB of filter bits
+			for e := range bt {
+				tokens.AddString(e)
+			}
+		}
+		sections = append(sections, encodeSection(sizedFilter(bf, 0.01), tokens, sizedFilter(bft, 0.01)))
+	}
+	regionOffset := file.Len()
+	for i := range blocks {
+		blocks[i].BloomFilterOffset = file.Len()
+		blocks[i].BloomFilterSize = len(sections[i])
+		file.Write(sections[i])
+	}
+	md := bs.FileMetadata{BlockFilterRegionOffset: regionOffset, BlockFilterRegionSize: file.Len() - regionOffset, DataBlocks: blocks,
+		BloomFilters: bs.BloomFilters{FieldBloomFilter: sizedFilter(fileF, 0.01), TokenBloomFilter: sizedFilter(fileT, 0.01), FieldTokenBloomFilter: sizedFilter(fileFT, 0.01)}}
+	if err := bs.WriteFileFooter(&file, &md); err != nil {
+		return nil, err
+	}
+	b.data = append([]byte(nil), file.Bytes()...)
+	parsed, _, err := bs.ReadFileMetadata(bytes.NewReader(b.data))
+	if err != nil {
+		return nil, fmt.Errorf("big base does not read back: %v", err)
+	}
+	b.md = parsed
+	pf, err := refmodel.ParseFile(b.data)
+	if err != nil {
+		return nil, fmt.Errorf("big base does not parse independently: %v", err)
+	}
+	b.meta = pf.Meta
+	return b, nil
+}
+
 func c19BaseFile(comp bs.CompressionType) (*c19base, error) {
+	if comp == "big" {
+		return c19BigBase()
+	}
 	cfg := quietConfig()
 	cfg.RowDataCompression = comp
 	cfg.ZstdCompressionLevel = 3
@@ -224,11 +307,33 @@ func forEachArtefact(b *c19base, family string, shard, shards int, fn func(a art
 				emit(fmt.Sprintf("dup[%d,%d)", a, c), d2)
 			}
 		}
-	case "framing", "framing-pairs":
+	case "framing", "framing-pairs", "framing-struct", "framing-struct-pairs":
 		vals := func() []int64 {
 			sz := int64(n)
 			return []int64{-1, 0, 1, sz - 1, sz, sz + 1, math.MaxInt32, math.MaxInt64, math.MinInt64}
 		}()
+		structural := strings.HasPrefix(family, "framing-struct")
+		if structural {
+			// every structural offset of the file and the sizes between them, +-1: fields that
+			// pass validation but point into, across or onto another block's extent
+			set := map[int64]bool{}
+			bd := b.boundaries()
+			for _, x := range bd {
+				for d := int64(-1); d <= 1; d++ {
+					set[int64(x)+d] = true
+				}
+			}
+			for _, bl := range b.meta.DataBlocks {
+				for _, x := range []int{bl.BloomFilterSize, bl.RowDataSize, bl.BloomFilterSize / 2, 4 << 20, 4<<20 + 1} {
+					set[int64(x)] = true
+				}
+			}
+			vals = vals[:0]
+			for v := range set {
+				vals = append(vals, v)
+			}
+			sort.Slice(vals, func(i, j int) bool { return vals[i] < vals[j] })
+		}
 		type field struct {
 			name string
 			set  func(m *refmodel.MetaJSON, v int64)
@@ -238,8 +343,17 @@ func forEachArtefact(b *c19base, family string, shard, shards int, fn func(a art
 			field{"regionOffset", func(m *refmodel.MetaJSON, v int64) { m.BlockFilterRegionOffset = int(v) }},
 			field{"regionSize", func(m *refmodel.MetaJSON, v int64) { m.BlockFilterRegionSize = int(v) }},
 			field{"fileFilterSize", func(m *refmodel.MetaJSON, v int64) { m.FileFilterSectionSize = int(v) }})
+		if structural {
+			fields = fields[:2] // the filter region and the blocks' filter sections
+		}
 		for bi := range b.meta.DataBlocks {
 			bi := bi
+			if structural {
+				fields = append(fields,
+					field{fmt.Sprintf("b%d.filterOffset", bi), func(m *refmodel.MetaJSON, v int64) { m.DataBlocks[bi].BloomFilterOffset = int(v) }},
+					field{fmt.Sprintf("b%d.filterSize", bi), func(m *refmodel.MetaJSON, v int64) { m.DataBlocks[bi].BloomFilterSize = int(v) }})
+				continue
+			}
 			fields = append(fields,
 				field{fmt.Sprintf("b%d.rowOffset", bi), func(m *refmodel.MetaJSON, v int64) { m.DataBlocks[bi].RowDataOffset = int(v) }},
 				field{fmt.Sprintf("b%d.rowSize", bi), func(m *refmodel.MetaJSON, v int64) { m.DataBlocks[bi].RowDataSize = int(v) }},
@@ -251,7 +365,7 @@ func forEachArtefact(b *c19base, family string, shard, shards int, fn func(a art
 			m.DataBlocks = append([]refmodel.BlockJSON(nil), b.meta.DataBlocks...)
 			return m
 		}
-		if family == "framing" {
+		if family == "framing" || family == "framing-struct" {
 			for _, f := range fields {
 				for _, v := range vals {
 					m := clone()
@@ -536,6 +650,18 @@ func init() {
 				fams["framing-pairs"] = 8
 			}
 			var cs []Case
+			// the file with a filter section beyond the chunk target: framing families only
+			bigFams := map[string]int{"framing": 1, "framing-struct": 4}
+			if tier == "thorough" {
+				bigFams["framing-struct-pairs"] = 16
+			}
+			for f, n := range bigFams {
+				for s := 0; s < n; s++ {
+					f, s, n := f, s, n
+					cs = append(cs, Case{ID: fmt.Sprintf("%s/big/%d", f, s), Run: func() CaseResult { return c19Parent(f, "big", s, n) }})
+				}
+			}
+			fams["framing-struct"] = 1
 			for _, c := range comps {
 				names := make([]string, 0)
 				for f := range fams {
@@ -554,7 +680,7 @@ func init() {
 			}
 			return cs
 		},
-		Rule:        "engine-written base file (2 blocks x 3 rows) per compression; exhaustively: every byte x {8 single-bit flips, 0x00, 0xFF, +1}; every 2-8 byte window x {zero, ones, inverted}; every truncation length; extensions; deletions and duplications between all pairs of structural boundaries ±1; CRC-consistent footers with every framing field (and, thorough, every pair) set to boundary values; each artefact goes through ReadFileMetadata, the block helpers, a scan, and 3 queries in two flows (file describes itself / MetaStore holds the original metadata); oracle: no panic, no negative seek, allocation <= 256 x file size + 8 MiB, rows ⊆ written, exact-or-error when the MetaStore holds the metadata; independently of checksums, decoded or stored-uncompressed row data that is not a sequence of whole length-prefixed rows must make the scanner and the match-all query report an error",
+		Rule:        "engine-written base file (2 blocks x 3 rows) per compression; exhaustively: every byte x {8 single-bit flips, 0x00, 0xFF, +1}; every 2-8 byte window x {zero, ones, inverted}; every truncation length; extensions; deletions and duplications between all pairs of structural boundaries ±1; CRC-consistent footers with every framing field (and, thorough, every pair) set to boundary values, and with the filter region / every filter section offset and size set to every structural offset and extent of the file +-1 (also on a file whose middle block's filter section exceeds the 4 MiB chunk target; thorough: every pair); each artefact goes through ReadFileMetadata, the block helpers, a scan, and 3 queries in two flows (file describes itself / MetaStore holds the original metadata); oracle: no panic, no negative seek, allocation <= 256 x file size + 8 MiB, rows ⊆ written, exact-or-error when the MetaStore holds the metadata; independently of checksums, decoded or stored-uncompressed row data that is not a sequence of whole length-prefixed rows must make the scanner and the match-all query report an error",
 		Assumptions: []string{"UncompressedSize is not in the property's list of arbitrary framing fields and is left valid"},
 	}
 }
